@@ -34,7 +34,7 @@ func Serve(t *testing.T) {
 		t.Skip("not started by the orchestrator")
 	}
 	debug.SetMaxStack(256 << 20)
-	in := bufio.NewReaderSize(os.Stdin, 1<<20)
+	in := bufio.NewReaderSize(aaseed.RealStdin, 1<<20)
 	out := bufio.NewWriterSize(os.Stdout, 1<<16)
 	defer out.Flush()
 	for {
